@@ -873,8 +873,12 @@ func (t *wordMatchTree) matches(cp *contentProvider, cost int, known map[matchTr
 				byteMatchSz: uint32(len(t.word)),
 				fileName:    t.fileName,
 			})
+			offset += idx + len(t.word)
+		} else {
+			// An occurrence that overlaps this one can still sit on word boundaries
+			// ("a.a" in "xa.a.a"), so only step past the first byte.
+			offset += idx + 1
 		}
-		offset += idx + len(t.word)
 	}
 
 	t.found = found
